@@ -5,7 +5,7 @@
    attempt on a cache context written only on success).  The market price and the result + committed
    transfers of the inner amm.SwapByDenom / perpetual.Open call are universally quantified. *)
 From Coq Require Import ZArith List Bool.
-From Elys Require Import Base.Res Models.Shield Proofs.ShieldProofs.
+From Elys Require Import Base.Res Base.Zdec Models.Shield Proofs.ShieldProofs Models.ShieldPrice Proofs.ShieldPriceProofs.
 Import ListNotations.
 Open Scope Z_scope.
 
@@ -164,6 +164,95 @@ Theorem C20_failed_execute_strands_order_refuted :
   (exists s2, step_fixed (exec_gen true w_s1 w_clean) (OCancelPerp 0 1) = Ok s2 /\ ords s2 = [] /\ bk s2 (AUser 0) 0 = 1000000000000).
 Proof. exact failed_execute_strands_order_refuted. Qed.
 Print Assumptions C20_failed_execute_strands_order_refuted.
+
+(* ---------------------------------------------------------------------------------------------------
+   The market price a spot order's trigger is compared with (Models/ShieldPrice.v: Keeper.GetAssetPriceFromDenomInToDenomOut).
+   [market_price] is the code BEFORE fix: 12bba76 (still the fallback when an oracle record is missing): USD value of ONE base unit of each denom = oracle price / 10^decimals in an 18-digit LegacyDec, then their
+   quotient).  In the theorems above the market price is universally quantified; here it is a function of the two oracle
+   price records (raw LegacyDec, per whole token) and the decimals of the two denoms, and the harness checks on every
+   spot-order attempt that the keeper returned exactly [market_price] of the records it read from x/oracle. *)
+
+(* the stated rounding: each of the three LegacyDec quotients is within (1/2 + 10^-18) units of its 18th digit of the exact
+   quotient of its operands: a ~ pin / 10^din, b ~ pout / 10^dout, mp ~ a / b.  (The error of a and b RELATIVE to their size
+   is what matters for mp: a has only 18 - din + log10(pin) significant digits.) *)
+Theorem C20_market_price_rounding : forall pin din pout dout mp,
+  0 <= pin -> 0 <= pout -> 0 <= din -> 0 <= dout ->
+  market_price pin din pout dout = Some mp ->
+  let a := usd_value_of_one pin din in
+  let b := usd_value_of_one pout dout in
+  0 < a /\ 0 < b /\ 0 <= mp /\
+  Z.abs (a * pow10 din - pin) * PREC <= pow10 din * (HALF + 1) /\
+  Z.abs (b * pow10 dout - pout) * PREC <= pow10 dout * (HALF + 1) /\
+  Z.abs (mp * b - a * PREC) * PREC <= b * (HALF + 1).
+Proof. exact market_price_rounding. Qed.
+Print Assumptions C20_market_price_rounding.
+
+(* no loss in the first stage for a price with at most 18 - decimals digits after the point *)
+Theorem C20_market_price_unit_value_exact_on_grid : forall p dec, 0 <= p -> 0 <= dec -> Z.rem p (pow10 dec) = 0 ->
+  usd_value_of_one p dec * pow10 dec = p.
+Proof. exact usd_value_exact_on_grid. Qed.
+Print Assumptions C20_market_price_unit_value_exact_on_grid.
+
+(* the market price never falls when the base asset's oracle price rises or the quote asset's falls (it may become
+   unavailable only because the quote's per-unit value rounds to zero) *)
+Theorem C20_market_price_monotone : forall pin pin' din pout pout' dout m,
+  0 <= pin <= pin' -> 0 <= pout' <= pout -> 0 <= din -> 0 <= dout ->
+  market_price pin din pout dout = Some m ->
+  market_price pin' din pout' dout = None \/
+  exists m', market_price pin' din pout' dout = Some m' /\ m <= m'.
+Proof. exact market_price_monotone. Qed.
+Print Assumptions C20_market_price_monotone.
+
+(* the trigger decision of ExecuteOrders is monotone in the market price: once met, the trigger of a LIMITSELL / perpetual
+   SHORT stays met at every higher price, that of a STOPLOSS / LIMITBUY / perpetual LONG at every lower price ... *)
+Theorem C20_trigger_monotone : forall o mp mp', triggered o mp = true ->
+  (rising o = true -> mp <= mp' -> triggered o mp' = true) /\
+  (falling o = true -> mp' <= mp -> triggered o mp' = true).
+Proof. exact trigger_monotone. Qed.
+Print Assumptions C20_trigger_monotone.
+
+(* ... hence in the oracle price: a limit sell that is executable at base price pin is executable at every higher one *)
+Theorem C20_trigger_monotone_in_oracle_price : forall o pin pin' din pout dout m,
+  o_perp o = false -> o_type o = 1 ->
+  0 <= pin <= pin' -> 0 <= pout -> 0 <= din -> 0 <= dout ->
+  market_price pin din pout dout = Some m -> triggered o m = true ->
+  exists m', market_price pin' din pout dout = Some m' /\ triggered o m' = true.
+Proof. exact trigger_monotone_in_oracle_price. Qed.
+Print Assumptions C20_trigger_monotone_in_oracle_price.
+
+(* BEFORE fix: 12bba76 the code did NOT decide the trigger as the exact market price (pin / 10^din) / (pout / 10^dout) does:
+   aweth (18 decimals) at 2000.6 USD is valued 2001e-18 USD per base unit; a LIMITSELL aweth -> uusdc at 2000.8 USD per WETH
+   (rate 2.0008e-9) is executed by anybody's MsgExecuteOrders while the market is at 2000.6 (exact price 2.0006e-9 < rate).
+   With 6 decimals the loss sits at the 13th digit: uatom at 5.0000000000004, STOPLOSS at 5.0000000000002 executed. *)
+Theorem C20_trigger_by_exact_price_refuted :
+  market_price w_weth 18 w_usdc 6 = Some 2001000000 /\
+  triggered w_sell 2001000000 = true /\
+  exact_triggered (o_type w_sell) w_weth 18 w_usdc 6 (o_rate w_sell) = false /\
+  market_price w_atom 6 w_usdc 6 = Some 5000000000000000000 /\
+  triggered w_stop 5000000000000000000 = true /\
+  exact_triggered (o_type w_stop) w_atom 6 w_usdc 6 (o_rate w_stop) = false.
+Proof. exact trigger_by_exact_price_refuted. Qed.
+Print Assumptions C20_trigger_by_exact_price_refuted.
+
+(* The code as it is since fix: 12bba76 (Models/ShieldPrice.v market_price_fixed; the harness checks on every spot-order
+   attempt that the keeper returned exactly this value of the records it read from x/oracle): one division of
+   the whole-token prices; its result is within (1/2 + 10^-18) units of its 18th digit of the exact market price, and it
+   refuses the two orders above. *)
+Theorem C20_market_price_fixed_rounding : forall pin din pout dout mp,
+  0 <= din -> 0 <= dout -> market_price_fixed pin din pout dout = Some mp ->
+  0 <= mp /\
+  (din <= dout -> Z.abs (mp * pout - pin * pow10 (dout - din) * PREC) * PREC <= pout * (HALF + 1)) /\
+  (dout < din -> Z.abs (mp * (pout * pow10 (din - dout)) - pin * PREC) * PREC <= pout * pow10 (din - dout) * (HALF + 1)).
+Proof. exact market_price_fixed_rounding. Qed.
+Print Assumptions C20_market_price_fixed_rounding.
+
+Theorem C20_market_price_fixed_witnesses :
+  market_price_fixed w_weth 18 w_usdc 6 = Some 2000600000 /\
+  triggered w_sell 2000600000 = false /\
+  market_price_fixed w_atom 6 w_usdc 6 = Some w_atom /\
+  triggered w_stop w_atom = false.
+Proof. exact market_price_fixed_witnesses. Qed.
+Print Assumptions C20_market_price_fixed_witnesses.
 
 (* non-vacuity: a concrete state the harness really builds (corpus 0 after the create) *)
 Example C20_nonvacuous :
